@@ -13,6 +13,12 @@ def main(tier):
     if g.violation:
         tlc_counterexample_violation(v, g, "MCGcmSplit", f"GcmSplit.{tier}.cfg")
     splits = g.prints["REPLAY"]
+    # call sizes around the 4096-byte cipher buffer (what the encryption layer hands to the core) and beyond
+    gb = tlc("MCGcmSplit", "GcmSplit.big.cfg", "c06-gcmbig", workers=1, timeout=3000)
+    ev["tlc"].append(dict(module="GcmSplit", cfg="GcmSplit.big.cfg", generated=gb.generated, distinct=gb.distinct, violation=gb.violation))
+    if gb.violation:
+        tlc_counterexample_violation(v, gb, "MCGcmSplit", "GcmSplit.big.cfg")
+    splits = splits + gb.prints["REPLAY"]
     res, scens = scenarios_from_writer("Writer.scen.cfg", "c06-scen")
     res2, scens2 = scenarios_from_writer("Writer.c01.names.cfg", "c06-names")
     chosen = pick(scens, 40 if tier == "quick" else 400, seed() + 31) + pick(scens2, 6 if tier == "quick" else 28, seed())
